@@ -440,6 +440,17 @@ def process_template(unit, tpl_path):
             ps = arg.split()
             unit.filerename.setdefault(ps[0], {}).update(dict(p.split('=') for p in ps[1:]))
             i += 1
+        elif cmd == 'consts':
+            # all simple numeric constants of a file (so that a newly added id/limit constant does not make the unit uncompilable)
+            rel = arg.strip()
+            src = unit.read_repo(rel)
+            already = set(re.findall(r'\bconst\s+(\w+)\s*:', '\n'.join(l for l, _ in unit.out)))
+            for m in code_positions(src, r'(?m)^(pub(\([a-z]+\))?\s+)?const\s+(\w+)\s*:\s*(u8|u16|u32|u64|u128|usize)\s*=\s*([^;]+);'):
+                if m.group(3) in already:
+                    continue
+                unit.emit('pub const %s: %s = %s;' % (m.group(3), m.group(4), m.group(5).strip()), '%s:%d' % (rel, line_of(src, m.start())))
+                unit.stats['R7_const'] = unit.stats.get('R7_const', 0) + 1
+            i += 1
         elif cmd == 'const':
             cparts = arg.split(None, 3)
             rel, name = cparts[0], cparts[1]
